@@ -349,7 +349,7 @@ impl Check for C14 {
         if !net_domain_ok(&sc.net) {
             return RunReport::default();
         }
-        if sc.roles.len() != sc.net.clients.len() || sc.net.cfg.limiter.is_some() || sc.net.cap_ns < 2 * sc.net.cfg.timeout_ns + secs(10) || sc.net.cfg.timeout_ns % secs(1) != 0 {
+        if sc.roles.len() != sc.net.clients.len() || !matches!(sc.net.cfg.proxy, None | Some((true, true))) || sc.net.cfg.limiter.is_some() || sc.net.cap_ns < 2 * sc.net.cfg.timeout_ns + secs(10) || sc.net.cfg.timeout_ns % secs(1) != 0 {
             return RunReport::default();
         }
         // roles and client programs must still agree (the shrinker may alter either)
